@@ -204,6 +204,9 @@ def parseOp (t : List String) : Option XOp :=
   | ["ap.getv", k, n] => do let k ← nat? k; guard (isAp k); pure (.apGetValue k (readName n))
   | ["ap.at", k, i] => do let k ← nat? k; let i ← nat? i; guard (isAp k); pure (.apAt k i)
   | ["ap.nons", k, n] => do let k ← nat? k; guard (isAp k); pure (.apNameNoNs k (readName n))
+  -- implicit copy constructor / copy assignment of the owner
+  | ["ap.copy", k, j] => do let k ← nat? k; let j ← nat? j; guard (isAp k && isAp j); pure (.apCopy k j)
+  | ["ap.assign", k, j] => do let k ← nat? k; let j ← nat? j; guard (isAp k && isAp j); pure (.apCopy k j)
   | _ => (parseBase t).map .base
 
 def parseOut (t : List String) : Option Out :=
